@@ -166,8 +166,15 @@ func (r *c16run) onMessage(sc *SvcConn, m client.MessagePayload) {
 
 func (r *c16run) headersFor(height, count int) *client.Headers {
 	h := &client.Headers{RequestHeight: int32(height), StartHeight: uint32(height)}
+	base := height
+	if height < 0 {
+		// "the most recent headers": the answer repeats the request height (-1) and starts at
+		// tip - count + 1
+		base = 500 - count + 1
+		h.StartHeight = uint32(base)
+	}
 	for i := 0; i < count && i < 3; i++ {
-		h.Headers = append(h.Headers, r.chain[(height+i)%len(r.chain)])
+		h.Headers = append(h.Headers, r.chain[(base+i)%len(r.chain)])
 	}
 	return h
 }
@@ -380,6 +387,7 @@ func runC16(c *Ctx) {
 	kinds := []string{"GetTx", "GetTx", "GetHeaders", "GetHeader", "SendTx", "SaveTxs", "ReprocessTx", "MarkHeaderInvalid", "MarkHeaderNotInvalid", "GetFeeQuotes", "GetOutputs", "GetOutputs"}
 	n := 1 + int(t.Choose(8))
 	usedFee := false
+	usedNeg := false
 	for i := 0; i < n; i++ {
 		cl := &callSpec{idx: i, kind: kinds[t.Choose(uint32(len(kinds)))], respondedAt: -1, requestSeenAt: -1}
 		if cl.kind == "GetFeeQuotes" {
@@ -396,6 +404,10 @@ func runC16(c *Ctx) {
 		case "GetHeaders":
 			cl.height = 10 + i
 			cl.count = 1 + int(t.Choose(3))
+			if !usedNeg && t.Bool(1, 3) {
+				usedNeg = true
+				cl.height = -1
+			}
 		case "GetHeader", "MarkHeaderInvalid", "MarkHeaderNotInvalid":
 			cl.hash = *r.chain[i%len(r.chain)].BlockHash()
 			// keys must be distinct per kind
